@@ -17,6 +17,10 @@ impl Selector<St, u32> for Sel {
 }
 
 fn on_change(v: u32, a: Act) {
+    // a user callback is an observable event of its own (see ScriptSub::on_notify)
+    if verif_rt::core::active() {
+        verif_rt::thread::yield_now();
+    }
     log(Ev::Cb { kind: "sel_change", comp: 1, act: a.id, st: vec![], out: vec![], x: v as i64 });
 }
 
@@ -83,6 +87,51 @@ fn body_unsub(values: Vec<usize>) {
     let _ = h.join();
     let _ = h2.join();
     stop(&store, 0);
+}
+
+/// (d) one SelectorSubscriber object registered in two running stores: notified from two reducer
+/// contexts, it must still never deliver the value it delivered last
+fn body_two_stores(v1: Vec<usize>, v2: Vec<usize>) {
+    let s1 = build_store(StoreCfg::new(1, 4, Pol::Block));
+    let s2 = build_store(StoreCfg::new(1, 4, Pol::Block));
+    let sub: Arc<dyn Subscriber<St, Act> + Send + Sync> = Arc::new(SelectorSubscriber::new(Sel, on_change));
+    let _a = s1.add_subscriber(sub.clone());
+    let _b = s2.add_subscriber(sub);
+    let (c1, c2) = (s1.clone(), s2.clone());
+    let h1 = verif_rt::thread::spawn_client("p1", move || {
+        for (pos, v) in v1.iter().enumerate() {
+            dispatch(&c1, Act::new(aid(pos, *v)));
+        }
+    });
+    let h2 = verif_rt::thread::spawn_client("p2", move || {
+        for (pos, v) in v2.iter().enumerate() {
+            dispatch(&c2, Act::new(aid(10 + pos, *v)));
+        }
+    });
+    let _ = h1.join();
+    let _ = h2.join();
+    stop(&s1, 0);
+    stop(&s2, 10);
+}
+
+pub fn check_two_stores(r: &ExecResult) -> Vec<Finding> {
+    let mut f = sanity(r);
+    let got: Vec<(u32, i64)> = cbs_of(r, "sel_change").map(|c| (c.act, c.x)).collect();
+    for w in got.windows(2) {
+        if w[0].1 == w[1].1 {
+            f.push(fnd("selector-fired-without-change", format!("selector callback delivered value {} twice in a row (actions {} and {}): {:?}", w[0].1, w[0].0, w[1].0, got)));
+            break;
+        }
+    }
+    for (a, v) in &got {
+        if (*a % 3) as i64 != *v {
+            f.push(fnd("selector-wrong-value-or-action", format!("delivered value {} with action {} whose state selects {}", v, a, a % 3)));
+        }
+    }
+    if got.is_empty() && cbs_of(r, "reduce").next().is_some() {
+        f.push(fnd("selector-missed-change", "nothing was delivered although actions were notified".into()));
+    }
+    f
 }
 
 pub fn check_unsub(r: &ExecResult) -> Vec<Finding> {
@@ -174,6 +223,18 @@ pub fn scenarios(tier: Tier, seed: i64) -> Vec<Scenario> {
             bound: if tier == Tier::Quick || seq.len() > 3 { 2 } else { 3 },
             body: Arc::new(move || body_unsub(sq.clone())),
             check: Arc::new(check_unsub),
+        });
+    }
+    let pairs: Vec<(Vec<usize>, Vec<usize>)> = if tier == Tier::Quick { vec![(vec![1, 1], vec![2])] } else { vec![(vec![1, 1], vec![2]), (vec![1, 2, 1], vec![2]), (vec![0, 0], vec![1, 1])] };
+    for (a, b) in pairs {
+        let (a2, b2) = (a.clone(), b.clone());
+        v.push(Scenario {
+            name: format!("C16/two-stores/{:?}{:?}", a, b),
+            params: "one SelectorSubscriber object registered in two stores, one producer each".into(),
+            opts: opts_elide(),
+            bound: if tier == Tier::Quick { 2 } else { 3 },
+            body: Arc::new(move || body_two_stores(a2.clone(), b2.clone())),
+            check: Arc::new(check_two_stores),
         });
     }
     // sampling (labelled so): a few long pseudo-random sequences seeded by VERIF_SEED
